@@ -31,6 +31,8 @@ func idxConf(kind, dir string) map[string]any {
 		return map[string]any{"type": "leveldb", "file": filepath.Join(dir, "index.leveldb")}
 	case "kv":
 		return map[string]any{"type": "kv", "file": filepath.Join(dir, "index.kv")}
+	case "sqlite":
+		return map[string]any{"type": "sqlite", "file": filepath.Join(dir, "index.sqlite")}
 	}
 	panic("index kind " + kind)
 }
@@ -116,7 +118,7 @@ type packedState struct {
 	packs             map[string][]byte // pack name -> content replacing the "before" content
 	extra             []string          // empty files to create
 	index             string            // "before" | "after"
-	variant           int               // how an in-flight remove is continued: 0 re-receive, 1 re-remove
+	variant           int               // how the in-flight op is continued: remove: 0 re-receive, 1 re-remove; receive: 0 retry, 2 retry then remove
 	crashPack         string            // pack the crashed op wrote to, offset of its record in it
 	crashOff          int64
 	// mode: "" = restart on the store's own index; "rebuilt" = the index is rebuilt from the packs
@@ -255,19 +257,36 @@ func (j *packedJob) prepare() bool {
 	// every state is restarted a second time through the operator's recovery path: a fresh index
 	// rebuilt from the pack files, and the history continued on it
 	defer func() {
-		seen := map[string]bool{}
+		seen := map[string]int{}
+		total := map[string]int{}
+		for _, st := range j.states {
+			total[st.kind+"|"+st.off+"|"+st.index]++
+		}
 		for _, st := range append([]packedState(nil), j.states...) {
 			if st.mode != "" {
 				continue
 			}
-			// quick tier: one state per (kind, offset class, index) instead of every byte offset
-			if k := st.kind + "|" + st.off + "|" + st.index; !r.Thorough() && seen[k] {
+			// not every byte offset again: per (kind, offset class, index) the first state (quick), or
+			// six spread over the class (thorough)
+			k := st.kind + "|" + st.off + "|" + st.index
+			seen[k]++
+			if n, stride := seen[k]-1, total[k]/6+1; !r.Thorough() && n > 0 || n%stride != 0 {
 				continue
-			} else {
-				seen[k] = true
 			}
 			st.mode = "rebuilt"
 			st.off += "/rebuilt"
+			j.states = append(j.states, st)
+		}
+		// an in-flight receive is also continued by "retry, then remove" (one state per kind / offset class)
+		seen2 := map[string]bool{}
+		for _, st := range append([]packedState(nil), j.states...) {
+			k := st.kind + "|" + st.off + "|" + st.index
+			if !last.Recv || st.mode == "ahead" || seen2[k] {
+				continue
+			}
+			seen2[k] = true
+			st.variant = 2
+			st.off += "/retry-remove"
 			j.states = append(j.states, st)
 		}
 	}()
